@@ -617,6 +617,13 @@ impl TypeCheckerState {
     /// Gets all of the values that are registered with the unifier state.
     #[must_use]
     pub fn values(&self) -> Vec<&TCBoxedVal> {
+        #[cfg(smlxl_storage_layout_extractor_verif)]
+        {
+            return crate::verif_hooks::permute(
+                "tc.state.values",
+                self.expressions.values().collect(),
+            );
+        }
         self.expressions.values().collect()
     }
 
@@ -624,6 +631,13 @@ impl TypeCheckerState {
     /// state.
     #[must_use]
     pub fn variables(&self) -> Vec<TypeVariable> {
+        #[cfg(smlxl_storage_layout_extractor_verif)]
+        {
+            return crate::verif_hooks::permute(
+                "tc.state.variables",
+                self.inferences.keys().copied().collect(),
+            );
+        }
         self.inferences.keys().copied().collect()
     }
 
